@@ -278,6 +278,10 @@ trait Auto<V: Val>: Sized + Sync {
     fn ser(&self) -> Vec<u8>;
     fn deser(src: &[u8]) -> (Self, &[u8]);
     fn heap(&self) -> usize;
+    /// the public `num_states()` accessor
+    fn nstates(&self) -> usize;
+    /// the public `num_elements()` accessor where the crate has one (char-wise), else the dump
+    fn nelems(&self, raw: &RawAutomaton<V>) -> usize;
     fn same(&self, o: &Self) -> bool;
     /// Slice / str entry points; `m` indexes `METHODS`.
     fn search(&self, m: usize, h: &[u8]) -> Vec<Hit<V>>;
@@ -300,6 +304,15 @@ fn as_str(p: &[u8]) -> &str {
 macro_rules! impl_auto {
     ($A:ident, $B:ident, $ss:expr, $conv:ident, $eq:ident) => {
         fn build(kind: u8, nfb: u32, entry_p: bool, pats: &[Vec<u8>], vals: &[V]) -> Result<Self, DaachorseError> {
+            if kind == 0 && nfb == 16 {
+                // the convenience constructors `new` / `with_values` (default builder: standard
+                // kind, 16 free blocks) are entry points of the crate too
+                return if entry_p {
+                    $A::new(pats.iter().map(|p| $conv(p)))
+                } else {
+                    $A::with_values(pats.iter().zip(vals).map(|(p, &v)| ($conv(p), v)))
+                };
+            }
             let b = $B::new().match_kind(MatchKind::from(kind)).num_free_blocks(nfb);
             if entry_p {
                 b.build(pats.iter().map(|p| $conv(p)))
@@ -319,6 +332,9 @@ macro_rules! impl_auto {
         }
         fn heap(&self) -> usize {
             self.heap_bytes()
+        }
+        fn nstates(&self) -> usize {
+            self.num_states()
         }
         fn same(&self, o: &Self) -> bool {
             V::$eq(self, o)
@@ -351,6 +367,9 @@ macro_rules! impl_auto {
 
 impl<V: Val> Auto<V> for BAuto<V> {
     impl_auto!(BAuto, BBuilder, 12, as_bytes, eq_b);
+    fn nelems(&self, raw: &RawAutomaton<V>) -> usize {
+        raw.states.len()
+    }
     fn child(&self, _raw: &RawAutomaton<V>, s: u32, label: u32) -> Option<u32> {
         self.verif_child(s, label as u8)
     }
@@ -368,6 +387,9 @@ impl<V: Val> Auto<V> for BAuto<V> {
 
 impl<V: Val> Auto<V> for CAuto<V> {
     impl_auto!(CAuto, CBuilder, 16, as_str, eq_c);
+    fn nelems(&self, _raw: &RawAutomaton<V>) -> usize {
+        self.num_elements()
+    }
     fn child(&self, raw: &RawAutomaton<V>, s: u32, label: u32) -> Option<u32> {
         let code = raw.mapper_table.get(label as usize).copied().filter(|&c| c != u32::MAX)?;
         self.verif_child(s, code)
@@ -609,7 +631,8 @@ fn exec<V: Val, A: Auto<V>>(c: &Case, vals: &[V], rng: &mut Rng, out: &mut Out) 
     out.line("B ok");
     let raw = pma.raw();
     out.line(&format!("K {}", raw.match_kind));
-    out.line(&format!("NS {}", raw.num_states));
+    // NS is what the public accessor `num_states()` reports
+    out.line(&format!("NS {}", pma.nstates()));
     let mut s = format!("ST {}", raw.states.len());
     for x in &raw.states {
         s.push_str(&format!(" {},{},{},{}", x.base, x.check, x.fail, x.output_pos));
@@ -632,7 +655,7 @@ fn exec<V: Val, A: Auto<V>>(c: &Case, vals: &[V], rng: &mut Rng, out: &mut Out) 
     out.line(&format!(
         "HB {} {} {} {}",
         pma.heap(),
-        raw.states.len(),
+        pma.nelems(&raw),
         A::STATE_SIZE,
         std::mem::size_of::<(V, u32, u32)>()
     ));
